@@ -338,6 +338,6 @@ def run(tier, seed):
 MANIFEST = {
     "engine": "H over G",
     "technique": "exhaustive enumeration of (read-only entry point x web-API request kind) from a prepared mixed-authority tree, each request run through the real HTTP parser, Root resource, dirnode and mutable-file code over real storage servers; grid state compared byte-wise",
-    "text": "All modifying request kinds of the web API are sent through every read-only entry point (read-caps, verify-caps, paths through read-only links and immutable directories); each must be refused and leave every mutable share byte-identical, and no response through read-only authority may contain a write key minted in the scenario. The same requests through write-caps are run as a non-vacuity control. The tree also links one directory both writeably and read-only from the same parent (node-cache aliasing) and holds a link marked no-write that was re-pointed without metadata.",
+    "text": "All modifying request kinds of the web API are sent through every read-only entry point (read-caps, verify-caps, paths through read-only links and immutable directories); each must be refused and leave every mutable share byte-identical, and no response through read-only authority may contain a write key minted in the scenario. The same requests through write-caps are run as a non-vacuity control. The tree also links one directory both writeably and read-only from the same parent (node-cache aliasing) and holds a link marked no-write that was re-pointed without metadata. A mutable file linked read-only into the writeable root receives the file-overwriting requests through that path.",
     "note": "History depth 1 from one scenario tree; status >= 400 counts as refusal.",
 }
